@@ -5,7 +5,7 @@ from vlib import build, check as vcheck
 from props import optimlib as ol
 from props.optimlib import f32, f2x, xs
 from props.C12 import (Table, SHAPES, size, rand_hyper, exact_hyper, EPOCH_BOUNDS, cut_history, kind_of, classify,
-                       report_violations)
+                       report_violations, LR_LIKE)
 
 MODS = ["PrimitivModel.Props.C15"]
 CORPUS = os.path.join(build.VERIF, "corpus", "optim_resume.ops")
@@ -18,12 +18,13 @@ class Config:
     fresh objects, and every resumed copy is trained in lockstep with the
     original and compared with it after every step."""
 
-    def __init__(self, rng, T, total, cuts, kind=None, cross=False, boundary=None, force_clip=None):
+    def __init__(self, rng, T, total, cuts, kind=None, cross=False, boundary=None, force_clip=None, zeros=False):
         self.rng, self.T = rng, T
         self.kind = kind or rng.choice(T.kinds)
         self.total, self.cuts = total, cuts
         self.cross = cross
         self.boundary = boundary
+        self.zeros = zeros          # hyper-parameters / scalings that are exactly 0 at checkpoint time
         self.exact = (not cross) and self.kind in ("SGD", "MomentumSGD") and rng.random() < 0.4
         self.clip = (rng.random() < 0.3) if force_clip is None else force_clip
         if self.exact:
@@ -53,6 +54,12 @@ class Config:
             h = []
         else:
             h = [rand_hyper(r, k, f) for f in fields]
+        if self.zeros:
+            # a saved zero must come back as zero, not as the constructor default
+            h = [(exact_hyper(r, k, f) if self.exact else rand_hyper(r, k, f)) for f in fields]
+            cand = [i for i, f in enumerate(fields) if (k, f) not in LR_LIKE]
+            for i in (r.sample(cand, r.randint(1, len(cand))) if cand else []):
+                h[i] = 0.0
         L.append(("opt 0 %s %s" % (k, " ".join(f2x(v) for v in h))).strip())
         self.h = h
         # settings: scaling, decay, clipping, epoch
@@ -61,7 +68,8 @@ class Config:
         if r.random() < 0.6:
             L.append("set 0 l2_strength %s" % f2x(r.choice([0.5, 0.25, 0.125]) if self.exact else f32(r.choice([0.01, 0.1, 0.5]))))
         if self.clip:
-            L.append("set 0 clip_threshold %s" % f2x(f32(r.choice([0.25, 0.5, 1.0, 3.0]))))
+            # thresholds well below and well above the joint norms of this loss (about 1..6)
+            L.append("set 0 clip_threshold %s" % f2x(f32(r.choice([0.25, 0.5, 1.0, 3.0, 6.0, 12.0, 40.0]))))
         if self.boundary is not None:
             L.append("set 0 epoch u%d" % self.boundary)
         elif r.random() < 0.4:
@@ -86,12 +94,15 @@ class Config:
             if step in self.cuts:
                 tag = "T%d" % step
                 L.append("checkpoint 0 %s %s" % (tag, " ".join("%d:%s" % (p, paths[p]) for p in range(m))))
-                dev = dev0 if not self.cross else r.choice(["naive", "eigen", "naive2"])
+                # another device instance of the same backend half of the time (a gradient or statistic left
+                # on the old device shows as "Device mismatched" in the first step after the restore)
+                dev = r.choice(["naive", "naive2"]) if not self.cross else r.choice(["naive", "eigen", "naive2"])
                 # half of the resumes register the fresh (valid, zero) model with the fresh optimizer
                 # before loading it — loaded statistics must replace the ones `add` created
                 devtok = dev + ("+addfirst" if r.random() < 0.5 else "")
                 L.append("restore %s %d %s %s %s" % (tag, nopts, k, devtok, " ".join(str(nparams + p) for p in range(m))))
-                copies.append((nopts, nparams, how_same if dev == dev0 else "near"))
+                same_backend = dev.rstrip("2") == dev0
+                copies.append((nopts, nparams, how_same if same_backend else "near"))
                 # immediately after the restore (n = 0)
                 L.append("osame 0 %d" % nopts)
                 for p in range(m):
@@ -100,11 +111,22 @@ class Config:
                 nparams += m
             if step == self.total:
                 break
+            if self.zeros and step in self.cuts and r.random() < 0.6:
+                # frozen phase: lr_scale was 0 at checkpoint time; unfreeze original and copies alike
+                unfrozen = 1.0 if self.exact else f32(r.choice([1.0, 0.5]))
+                for o in [0] + [c[0] for c in copies]:
+                    L.append("set %d lr_scale %s" % (o, f2x(unfrozen)))
+            if self.zeros and (step + 1) in self.cuts and r.random() < 0.6:
+                for o in [0] + [c[0] for c in copies]:
+                    L.append("set %d lr_scale %s" % (o, f2x(0.0)))
             # one training step of the original and of every resumed copy, on the same data
             ab = [([self.coef() for _ in range(sizes[p])], [self.coef() for _ in range(sizes[p])]) for p in range(m)]
             for p in range(m):
                 L.append("lgrad %d %s %s" % (p, xs(ab[p][0]), xs(ab[p][1])))
             L.append("update 0")
+            if self.clip:
+                for p in range(m):
+                    L.append("pstate %d" % p)         # the clipped / unclipped gradients (measured below)
             for (o, base, how) in copies:
                 for p in range(m):
                     L.append("lgrad %d %s %s" % (base + p, xs(ab[p][0]), xs(ab[p][1])))
@@ -134,6 +156,36 @@ class Config:
                 k, kk, nn, xs(self.h), f2x(lr), f2x(l2), f2x(clip), ep, xs([self.coef() for _ in range(na)]),
                 xs([self.coef() for _ in range(na)]), ",".join(T.stat_names), " ".join(ps)))
         return L
+
+
+def count_clip_sides(streams_out):
+    """post-resume training steps with clipping on: how many had a joint norm above the threshold
+    (gradients rescaled to it) and how many below (no clipping)"""
+    above = below = 0
+    for lines, impl in streams_out:
+        clip, resumed = 0.0, False
+        for i, (l, o) in enumerate(zip(lines, impl)):
+            w = l.split(" ")
+            if w[0] == "mode":
+                clip, resumed = 0.0, False
+            elif w[0] == "set" and w[1] == "0" and w[2] == "clip_threshold" and o.startswith("ok"):
+                clip = ol.x2f(w[3])
+            elif w[0] == "restore" and o.startswith("ok"):
+                resumed = True
+            elif l == "update 0" and clip > 0 and resumed and o.startswith("ok"):
+                sq, n = 0.0, 0
+                for l2, o2 in zip(lines[i + 1:i + 6], impl[i + 1:i + 6]):
+                    if not l2.startswith("pstate ") or not o2.startswith("ok"):
+                        break
+                    g = [t for t in o2.split(" ") if t.startswith("g=")][0][2:]
+                    sq += sum(ol.x2f(t) ** 2 for t in g.split(",") if t.startswith("x"))
+                    n += 1
+                if n:
+                    if abs(sq ** 0.5 - clip) <= 1e-3 * clip:
+                        above += 1
+                    elif sq ** 0.5 < clip:
+                        below += 1
+    return above, below
 
 
 def judge_line(line, impl):
@@ -183,6 +235,8 @@ def run(chk):
         if quick:
             total = r.randint(2, 5)
             cuts = set(r.sample(range(0, total + 1), 2))
+            if min(cuts) == total:
+                cuts = {total - 1, total}
             cross = (i % 10 == 7)
             boundary = r.choice(EPOCH_BOUNDS) if i % 12 == 5 else None
         else:
@@ -192,7 +246,7 @@ def run(chk):
             boundary = EPOCH_BOUNDS[(i // 10) % len(EPOCH_BOUNDS)] if i % 10 == 3 else None
         force_clip = True if i % 6 == 2 else None
         c = Config(r, T, total, cuts, kind=kind if (boundary is None or i % 2) else "Adam", cross=cross, boundary=boundary,
-                   force_clip=force_clip)
+                   force_clip=force_clip, zeros=(i % 5 == 1))
         hists.append(c.build())
         pairs += sum(total - k + 1 for k in cuts)
     per_stream = 6 if quick else 10
@@ -211,6 +265,13 @@ def run(chk):
     chk.extra_cov["resume_experiments_train_restore_checkpoint"] = len(
         [1 for lines, impl in R.streams_out for l, o in zip(lines, impl) if l.startswith("resume ") and o.startswith("ok same")])
     chk.extra_cov["configurations"] = len(hists)
+    ab, be = count_clip_sides(R.streams_out)
+    chk.extra_cov["post_resume_steps_clipping_on_norm_above_threshold"] = ab
+    chk.extra_cov["post_resume_steps_clipping_on_norm_below_threshold"] = be
+    chk.extra_cov["restores_onto_another_device_instance_naive2"] = len(
+        [1 for lines, impl in R.streams_out for l, o in zip(lines, impl) if l.startswith("restore ") and " naive2" in l and o == "ok"])
+    chk.extra_cov["configurations_with_zero_hyperparameters_or_frozen_lr_scale"] = len(
+        [1 for h in hists if any(l.startswith("opt 0") and " x00000000" in l for l in h) or any(l.endswith("lr_scale x00000000") for l in h)])
     chk.extra_cov["interruption_continuation_pairs"] = pairs
     chk.extra_cov["comparisons_resumed_vs_uninterrupted"] = len(cmp_lines)
     chk.extra_cov["of_those_bit_exact_mode"] = len([1 for l, o in cmp_lines if " bits " in l])
